@@ -37,6 +37,9 @@ def strip_comments(s):
     s = re.sub(r"/\*.*?\*/", " ", s, flags=re.S)
     return re.sub(r"//[^\n]*", " ", s)
 
+# entry points of the constructed types: the decoders through which a (recursive) type definition nests
+CONSTRUCTED_NAME = re.compile(r"^(SEQUENCE|SEQUENCE_OF|SET|SET_OF|CHOICE)_decode_(ber|uper|oer|xer)$")
+
 DECODER_NAME = re.compile(r"(_decode_(ber|uper|oer|xer)$)|(^ber_skip_length$)|(^ber_check_tags$)|(^ber_decode_primitive$)"
                           r"|(^oer_decode_primitive$)|(^uper_open_type_\w+$)|(^oer_open_type_\w+$)|(^xer_decode_general$)"
                           r"|(^xer_decode_primitive$)|(^xer_skip_unknown$)|(^OPEN_TYPE_\w+_get$)")
@@ -88,6 +91,9 @@ def extract(repo=None):
     so = strip_comments(dict(functions(os.path.join(sk, "constr_SET_OF_oer.c"))).get("SET_OF_decode_oer", ""))
     g = re.search(r"rv\.consumed\s*==\s*0\s*&&\s*base_ptr\s*==\s*ptr\s*&&\s*\(base_ctx_left\s*-\s*ctx->left\)\s*>\s*(\d+)\s*\)\s*\{[^}]*ASN__DECODE_FAILED", so)
     out["zeroWidthLimitOer"] = int(g.group(1)) if g else None
+    # zero-width characters (single-character permitted alphabet): a fragmented length is refused
+    ou = strip_comments(dict(functions(os.path.join(sk, "OCTET_STRING.c"))).get("OCTET_STRING_decode_uper", ""))
+    out["zeroWidthCharGuardUper"] = bool(re.search(r"if\s*\(\s*unit_bits\s*==\s*0\s*&&\s*repeat\s*\)\s*\{\s*RETURN\s*\(\s*RC_FAIL\s*\)", ou))
     # fragment size of uper_get_length
     gl = strip_comments(dict(functions(os.path.join(sk, "per_support.c"))).get("uper_get_length", ""))
     g = re.search(r"return\s*\(\s*(\d+)\s*\*\s*value\s*\)", gl)
@@ -107,6 +113,7 @@ def extract(repo=None):
             if anyc and not eff: discarded.append(name)
             via_tags[name] = bool(re.search(r"\bber_check_tags\s*\(", b)) and name != "ber_check_tags"
     out["guardedDecoders"] = sorted(guarded.items())
+    out["constructedDecoders"] = sorted(n for n in guarded if CONSTRUCTED_NAME.match(n))
     out["discardedChecks"] = sorted(discarded)
     out["callsBerCheckTags"] = sorted(via_tags.items())
     # which wrappers install the default limit
@@ -145,6 +152,8 @@ def render(x):
     L.append(f"def zeroWidthLimitUper : Option Nat := {lean_optnat(x['zeroWidthLimitUper'])}")
     L.append("/-- the `rv.consumed == 0 && base_ptr == ptr && (base_ctx_left - ctx->left) > N` guard of SET_OF_decode_oer -/")
     L.append(f"def zeroWidthLimitOer : Option Nat := {lean_optnat(x['zeroWidthLimitOer'])}")
+    L.append("/-- the `unit_bits == 0 && repeat` guard of OCTET_STRING_decode_uper (zero-width characters are not accepted in fragments) -/")
+    L.append(f"def zeroWidthCharGuardUper : Bool := {lean_bool(x['zeroWidthCharGuardUper'])}")
     L.append("/-- uper_get_length: a fragment announces `unit * m` items, 1 <= m <= maxMult -/")
     L.append(f"def uperFragmentUnit : Option Nat := {lean_optnat(x['uperFragmentUnit'])}")
     L.append(f"def uperFragmentMaxMult : Option Nat := {lean_optnat(x['uperFragmentMaxMult'])}")
@@ -152,6 +161,8 @@ def render(x):
     L.append("def guardedDecoders : List (String × Bool) := [")
     L.append(",\n".join(f'  ("{n}", {lean_bool(b)})' for n, b in x["guardedDecoders"]))
     L.append("]")
+    L.append("\n/-- the rows of `guardedDecoders` that are entry points of a constructed type (SEQUENCE, SET, SET OF, CHOICE) in any syntax -/")
+    L.append("def constructedDecoders : List String := [" + ", ".join(f'"{n}"' for n in x["constructedDecoders"]) + "]")
     L.append("\n/-- decoders that call ASN__STACK_OVERFLOW_CHECK but throw the verdict away -/")
     L.append("def discardedChecks : List String := [" + ", ".join(f'"{n}"' for n in x["discardedChecks"]) + "]")
     L.append("\n/-- decoder entry points × \"body calls ber_check_tags\" (the BER decoders are guarded through it) -/")
